@@ -197,6 +197,14 @@ func canonGoVal(rv reflect.Value) interface{} {
 		r := rv.Interface().(regexp.Regexp)
 		return J{"re": r.String()}
 	case t == tConfigT:
+		// the settings a Config target ended up with (the zero value holds none)
+		if rv.FieldByName("fields").IsNil() {
+			return J{"cfg": J{"dict": J{}, "arr": []interface{}{}}}
+		}
+		c := rv.Interface().(ucfg.Config)
+		if vw, ok := viewOf(&c).(J)["ok"].(J); ok {
+			return J{"cfg": J{"dict": vw["dict"], "arr": vw["arr"]}}
+		}
 		return J{"cfg": nil}
 	}
 	switch t.Kind() {
@@ -239,6 +247,9 @@ func canonGoVal(rv reflect.Value) interface{} {
 		}
 		return J{"ar": out}
 	case reflect.Map:
+		if t.Key().Kind() != reflect.String {
+			return J{"unsup": true}
+		}
 		if rv.IsNil() {
 			return J{"mp": nil}
 		}
@@ -313,7 +324,7 @@ func kUnpack(c J) interface{} {
 		ce := canonErr(err).(J)["err"].(J)
 		after := mustJSON(shallowKey(target.Elem()))
 		return J{"err": J{"reason": ce["reason"], "typed": ce["typed"], "class": ce["class"], "path": ce["path"], "text": ce["text"]},
-			"unchanged": before == after}
+			"unchanged": t.Kind() != reflect.Struct || before == after} // C13 speaks about struct targets
 	}
 	return J{"ok": canonGoVal(target.Elem())}
 }
